@@ -1,6 +1,7 @@
 import XV.Props.C03
 import XV.Props.C05
 import XV.Lemmas.InvTable
+import XV.Lemmas.InvBlock
 /-!
 C02 — token conservation: supply changes only by coinbase, every token is in one place.
 Theorems about the UTXO table of the L1 chain model. `sumU` is the sum of all rows of table "U";
@@ -576,5 +577,121 @@ example :
   intro e s
   have h0 : PoolInv e s := ⟨by unfold UNodup; decide, by decide, by decide, by decide, by decide⟩
   exact ⟨h0, by decide, doTx_PoolInv e s 0 1 h0 (lookup_none_of_noid _ _ (by decide)) (by decide) (by decide) (by decide), by decide⟩
+
+-- ================================================================ conservation through the transactions of a block
+
+/-- paying the fee when only the fee slots are known to be free (the other outputs of the transaction are rows already) -/
+theorem payFee_sum_slots (t : Tx) (prop : String) (outs : List Out) (off : Nat) (s : St) (hn : UNodup s.U)
+    (hfree : ∀ idx o, outs[idx]? = some o → (o.addr == "$") = true → lookup s.U (t.id, off + idx) = none) :
+    UNodup (payFee t prop outs off s).U ∧ sumU (payFee t prop outs off s).U = sumU s.U + feeOf outs := by
+  induction outs generalizing off s with
+  | nil => simp [payFee, feeOf, hn]
+  | cons o r ih =>
+    unfold payFee
+    by_cases hd : (o.addr == "$") = true
+    · simp only [hd, ↓reduceIte]
+      have h0 := hfree 0 o (by simp) hd
+      simp only [Nat.add_zero] at h0
+      obtain ⟨i1, i2⟩ := ih (off + 1) { s with U := put s.U (t.id, off) ⟨prop, o.amt, 0⟩ } (put_nodup _ _ _ hn)
+        (fun idx x hx hm => by
+          have := hfree (idx + 1) x (by simpa using hx) hm
+          have hk : off + (idx + 1) = off + 1 + idx := by omega
+          rw [hk] at this
+          simp only
+          rw [lookup_put]
+          have hne : ¬ (t.id, off) = (t.id, off + 1 + idx) := by intro e; injection e with _ e2; omega
+          simpa [hne] using this)
+      rw [feeOf_cons_fee o r hd]
+      refine ⟨i1, ?_⟩
+      rw [i2]
+      simp only
+      rw [sumU_put _ _ _ hn]
+      simp only [amtAt, h0]
+      omega
+    · simp only [hd, Bool.false_eq_true, ↓reduceIte]
+      obtain ⟨i1, i2⟩ := ih (off + 1) s hn (fun idx x hx hm => by
+        have := hfree (idx + 1) x (by simpa using hx) hm
+        have hk : off + (idx + 1) = off + 1 + idx := by omega
+        rwa [hk] at this)
+      rw [feeOf_cons_other o r hd]
+      exact ⟨i1, i2⟩
+
+/-- confirming a pending transaction: its fee materialises for the proposer -/
+theorem confirmPool_sum (t : Tx) (prop : String) (s : St) (hn : UNodup s.U)
+    (hfree : ∀ idx, feeSlot t idx = true → lookup s.U (t.id, idx) = none) :
+    UNodup (payFee t prop t.outs 0 s).U ∧
+    sumU (payFee t prop t.outs 0 s).U = sumU s.U + feeOf t.outs ∧ (payFee t prop t.outs 0 s).total = s.total := by
+  obtain ⟨p1, p2⟩ := payFee_sum_slots t prop t.outs 0 s hn (fun idx o ho hd => by
+    simp only [Nat.zero_add]; exact hfree idx (feeSlot_of_get t idx o ho hd))
+  exact ⟨p1, p2, (payFee_frame t prop t.outs 0 s).2.2.1⟩
+
+/-- confirming a transaction that was not pending (admit, apply, pay the fee): the difference `Σ U − total` is unchanged.
+A coinbase (award) has no inputs and no fee. -/
+theorem confirmNew_sum (s : St) (lh : Int) (t : Tx) (prop : String) (hadm : admitTx s lh t = .ok) (hn : UNodup s.U)
+    (hfresh : ∀ o, lookup s.U (t.id, o) = none) (hself : ∀ r ∈ t.ins, r.tx ≠ t.id)
+    (hcb : t.coinbase = true → t.ins = [] ∧ feeOf t.outs = 0) :
+    UNodup (payFee t prop t.outs 0 (applyTx s t)).U ∧
+    sumU (payFee t prop t.outs 0 (applyTx s t)).U - (payFee t prop t.outs 0 (applyTx s t)).total
+      = sumU s.U - s.total := by
+  have hfree : ∀ idx, feeSlot t idx = true → lookup (applyTx s t).U (t.id, idx) = none :=
+    fun idx hf => applyTx_feeSlot_free s t idx hself hf (hfresh idx)
+  by_cases hc : t.coinbase = true
+  · obtain ⟨hins, hfee⟩ := hcb hc
+    obtain ⟨a1, a2, a3⟩ := applyTx_coinbase s t hn hfresh hc hins
+    obtain ⟨p1, p2, p3⟩ := confirmPool_sum t prop (applyTx s t) a1 hfree
+    refine ⟨p1, ?_⟩
+    rw [p2, p3, a2, a3, hfee]; omega
+  · have hc' : t.coinbase = false := by simpa using hc
+    obtain ⟨a1, a2, a3⟩ := applyTx_conserves s lh t hadm hn hfresh hc'
+    obtain ⟨p1, p2, p3⟩ := confirmPool_sum t prop (applyTx s t) a1 hfree
+    refine ⟨p1, ?_⟩
+    rw [p2, p3, a3]; omega
+
+/-- **conservation through the transactions of a block**: confirmed pending transactions move their fee from "pending" to
+the table; new transactions (distinct fresh ids, no self-citation, coinbase without inputs and fee) leave `Σ U − total` alone -/
+theorem blockRun_sum (e : Env) (lh : Int) (prop : String) (isPool : Nat → Bool) (txs : List Nat) (s s2 : St)
+    (h : blockRun e lh prop isPool txs s s2) (hnd : txs.Nodup) (hid : ∀ i ∈ txs, (e.tx i).id = i)
+    (hn : UNodup s.U)
+    (hnew : ∀ i ∈ txs, isPool i = false → (∀ o, lookup s.U (i, o) = none) ∧ (∀ r ∈ (e.tx i).ins, r.tx ≠ i) ∧
+      ((e.tx i).coinbase = true → (e.tx i).ins = [] ∧ feeOf (e.tx i).outs = 0))
+    (hpool : ∀ i ∈ txs, isPool i = true → ∀ idx, feeSlot (e.tx i) idx = true → lookup s.U (i, idx) = none) :
+    UNodup s2.U ∧ sumU s2.U - s2.total = sumU s.U - s.total + poolFees e (txs.filter isPool) := by
+  induction txs generalizing s with
+  | nil => simp only [blockRun] at h; subst h; simp [poolFees, hn]
+  | cons i rest ih =>
+    simp only [List.nodup_cons] at hnd
+    have hidi := hid i List.mem_cons_self
+    have hid' : ∀ j ∈ rest, (e.tx j).id = j := fun j hj => hid j (List.mem_cons_of_mem _ hj)
+    have hne : ∀ j ∈ rest, ∀ x : Nat, ((j, x) : Ver).1 ≠ (e.tx i).id := by
+      intro j hj x; rw [hidi]; simp only; intro e2; exact hnd.1 (e2 ▸ hj)
+    unfold blockRun at h
+    by_cases hp : isPool i = true
+    · simp only [hp, ↓reduceIte] at h
+      obtain ⟨p1, p2, p3⟩ := confirmPool_sum (e.tx i) prop s hn (fun idx hf => by
+        rw [hidi]; exact hpool i List.mem_cons_self hp idx hf)
+      obtain ⟨r1, r2⟩ := ih _ h hnd.2 hid' p1
+        (fun j hj hjp => by
+          obtain ⟨n1, n2, n3⟩ := hnew j (List.mem_cons_of_mem _ hj) hjp
+          exact ⟨fun o => confirmPool_lookup_none _ _ _ _ (hne j hj o) (n1 o), n2, n3⟩)
+        (fun j hj hjp idx hf => confirmPool_lookup_none _ _ _ _ (hne j hj idx)
+          (hpool j (List.mem_cons_of_mem _ hj) hjp idx hf))
+      refine ⟨r1, ?_⟩
+      rw [r2, p2, p3]
+      simp only [List.filter_cons, hp, ↓reduceIte, poolFees, List.map_cons, List.sum_cons]
+      omega
+    · have hp' : isPool i = false := by simpa using hp
+      simp only [hp, Bool.false_eq_true, ↓reduceIte] at h
+      obtain ⟨n1, n2, n3⟩ := hnew i List.mem_cons_self hp'
+      obtain ⟨c1, c2⟩ := confirmNew_sum s lh (e.tx i) prop h.1 hn (by rw [hidi]; exact n1)
+        (by rw [hidi]; exact n2) n3
+      obtain ⟨r1, r2⟩ := ih _ h.2 hnd.2 hid' c1
+        (fun j hj hjp => by
+          obtain ⟨m1, m2, m3⟩ := hnew j (List.mem_cons_of_mem _ hj) hjp
+          exact ⟨fun o => confirmNew_lookup_none _ _ _ _ (hne j hj o) (m1 o), m2, m3⟩)
+        (fun j hj hjp idx hf => confirmNew_lookup_none _ _ _ _ (hne j hj idx)
+          (hpool j (List.mem_cons_of_mem _ hj) hjp idx hf))
+      refine ⟨r1, ?_⟩
+      rw [r2, c2]
+      simp only [List.filter_cons, hp, Bool.false_eq_true, ↓reduceIte]
 
 end XV.C02
